@@ -134,6 +134,14 @@ func genC08(seed uint64, tier string) *plan.Plan {
 		pl.Ops = append(pl.Ops, plan.Op{K: "wfault", A: kind, B: int64(r.IntN(64))},
 			plan.Op{K: "data", A: int64(r.IntN(nT)), B: int64(1 + r.IntN(5)), C: int64(r.Uint64() >> 1), D: 20})
 	}
+	if r.IntN(6) == 0 {
+		// the application goes on calling SendSet after it closed the exporting process: whatever such
+		// a call reports, a call that reports success has put exactly one message on the wire
+		pl.Ops = append(pl.Ops, plan.Op{K: "close"})
+		for k := 1 + r.IntN(3); k > 0; k-- {
+			pl.Ops = append(pl.Ops, plan.Op{K: "data", A: int64(r.IntN(nT)), B: int64(1 + r.IntN(4)), C: int64(r.Uint64() >> 1), D: 20})
+		}
+	}
 	genSchedule(r, pl, 3, 40*len(pl.Ops))
 	return pl
 }
